@@ -1186,7 +1186,17 @@ func cmdServe(args []string) {
 			variants = append(variants, variant{keysNil, nil, 0, true}, variant{keysEmpty, nil, 0, true})
 		}
 		for _, dbg := range []bool{false, true} {
-			m.SetDebug(dbg)
+			if !dbg && !s.Pass && nth%3 == 2 {
+				// "debug off" reached the OTHER documented way: turned on, then through passthrough (which switches it off) and
+				// back to the same configuration (which keeps it as it is) - no SetDebug(false) is ever called
+				m.SetDebug(true)
+				m.Reconfigure(nil)
+				if err := m.Reconfigure(cfg); err != nil {
+					t.emit(map[string]any{"ev": "Rejected", "cfg": cfgJSON(cfg), "err": "accepted before, rejected after a passthrough phase: " + err.Error()})
+				}
+			} else {
+				m.SetDebug(dbg)
+			}
 			if !lateNoise {
 				noise(m)
 			}
